@@ -39,10 +39,23 @@ def parse_opcodes():
     if not m:
         raise ExtractError("opcode.rs: from_u8 not found")
     body = " ".join(m.group(1).split())
-    mm = re.fullmatch(r"if (.*?) \{ Some\(unsafe \{ std::mem::transmute::<u8, OpCode>\(byte\) \}\) \} else \{ None \}", body)
-    if not mm:
-        raise ExtractError("opcode.rs: from_u8 is no longer `if <ranges of byte> { Some(transmute(byte)) } else { None }`")
     names = dict(ops)
+    mm = re.fullmatch(r"if (.*?) \{ Some\(unsafe \{ std::mem::transmute::<u8, OpCode>\(byte\) \}\) \} else \{ None \}", body)
+    mmatch = re.fullmatch(r"match byte \{ (.*?) => Some\(unsafe \{ std::mem::transmute::<u8, OpCode>\(byte\) \}\), _ => None,? \}", body)
+    if mmatch:
+        ranges = []
+        for alt in mmatch.group(1).split("|"):
+            m3 = re.fullmatch(r"\s*([0-9]+)\s*(?:\.\.=\s*([0-9]+))?\s*", alt)
+            if not m3:
+                raise ExtractError(f"opcode.rs: from_u8: unrecognised match pattern {alt!r}")
+            lo = int(m3.group(1))
+            hi = int(m3.group(2)) if m3.group(2) else lo
+            if hi > 255 or lo > hi:
+                raise ExtractError("opcode.rs: from_u8: bad range")
+            ranges.append((lo, hi))
+        return ops, ranges, src
+    if not mm:
+        raise ExtractError("opcode.rs: from_u8 is no longer `if <ranges of byte> { Some(transmute(byte)) } else { None }` or a match over byte ranges")
 
     def val(t):
         t = t.strip()
@@ -105,8 +118,25 @@ def gap_range():
 
 
 # ------------------------------------------------------------------------------------ verifier
-CATEGORY_ARGS = {  # expected call text in mod.rs per category -> whether `ip` is among the args
-}
+WARNINGS = []      # shapes that were not recognised but are covered by a contract tie (reported in the evidence, not fatal)
+
+
+def inline_bool_helpers(t):
+    """`fn h(a: T, b: T) -> bool { expr }` (whitespace-normalised text): replace every call h(x, y) by (expr[a:=x, b:=y])."""
+    for m in list(re.finditer(r"fn (\w+)\(([^)]*)\) -> bool \{ ([^{};]+) \}", t)):
+        name, params, body = m.group(1), [q.split(":")[0].strip() for q in m.group(2).split(",") if q.strip()], m.group(3)
+
+        def call(mm):
+            args = [a.strip() for a in mm.group(1).split(",")]
+            if len(args) != len(params):
+                return mm.group(0)
+            e = body
+            for pn, a in zip(params, args):
+                e = re.sub(r"\b%s\b" % re.escape(pn), a, e)
+            return e
+        t = t[:m.start()] + t[m.end():] if False else t
+        t = re.sub(r"(?<!fn )\b%s\(([^()]*)\)" % re.escape(name), call, t)
+    return t
 
 
 def split_arms(body, where):
@@ -175,7 +205,7 @@ def parse_checks(block, where):
         if m:
             out.append("CUpval" + m.group(1).upper())
             continue
-        if re.fullmatch(r'verify_jump\(ip, imm, bytecode_len, (starts, )?"[^"]*"\)\?', st):
+        if re.fullmatch(r'verify_jump\(ip, imm, bytecode_len, (\w+, )?"[^"]*"\)\?', st):
             out.append("CJump")
             continue
         m = re.fullmatch(r'verify_reg_range\(a, ([0-9]+), num_regs, "[^"]*"\)\?', st)
@@ -234,21 +264,41 @@ def parse_verifier():
         if not re.search(r"fn %s\([^)]*\) -> Result<\(\), String> \{ %s \}" % (h, re.escape(c)), t):
             raise ExtractError(f"verifier/bytecode/mod.rs: helper {h} no longer delegates to {c}")
     checks = " ".join(strip_comments(rd(base + "checks.rs")).split())
-    # jump targets: range only (old) or range + instruction start of the linear layout (new); all three places must agree
-    starts_pass = ("let mut starts = vec![false; bytecode.len() + 1]; let mut pos = 0; while pos < bytecode.len() { starts[pos] = true; "
-                   "let op = (bytecode[pos] >> 24) as u8; let has_cache_words = " +
-                   " || ".join(f"op == OpCode::{n} as u8" for n in skip) +
-                   "; pos += if has_cache_words { 3 } else { 1 }; } starts[bytecode.len()] = true;") in t
-    helper_new = re.search(r"fn verify_jump\([^)]*\) -> Result<\(\), String> \{ check_jump\(ip, imm, bytecode_len, starts, op\) \}", t) is not None
-    helper_old = re.search(r"fn verify_jump\([^)]*\) -> Result<\(\), String> \{ check_jump\(ip, imm, bytecode_len, op\) \}", t) is not None
-    check_new = "if !starts.get(target as usize).copied().unwrap_or(false) { return Err(" in checks
-    uses_starts = "starts" in t or "starts" in checks
+    # jump targets: range only (old) or range + instruction start of the linear layout (new); all three places must agree.
+    # Identifier names are free.
+    mpass = re.search(r"let mut (?P<S>\w+) = vec!\[false; bytecode\.len\(\) \+ 1\]; let mut (?P<P>\w+) = 0; "
+                      r"while (?P=P) < bytecode\.len\(\) \{ (?P=S)\[(?P=P)\] = true; let (?P<O>\w+) = \(bytecode\[(?P=P)\] >> 24\) as u8; "
+                      r"let (?P<H>\w+) = (?P<C>[^;]*); (?P=P) \+= if (?P=H) \{ 3 \} else \{ 1 \}; \} (?P=S)\[bytecode\.len\(\)\] = true;", t)
+    starts_pass = False
+    if mpass:
+        conds = sorted(c.strip() for c in mpass.group("C").split("||"))
+        want = sorted(f"{mpass.group('O')} == OpCode::{n} as u8" for n in skip)
+        if conds != want:
+            raise ExtractError(f"verifier: the instruction-start pass widens {conds}, the scan skips after {skip}")
+        starts_pass = re.search(r"control::verify\([^;]*&%s\)\?" % re.escape(mpass.group("S")), t) is not None
+    mh = re.search(r"fn verify_jump\(([^)]*)\) -> Result<\(\), String> \{ check_jump\(([^)]*)\) \}", t)
+    if not mh:
+        raise ExtractError("verifier/bytecode/mod.rs: verify_jump helper not found")
+    hparams = [q.split(":")[0].strip() for q in mh.group(1).split(",") if q.strip()]
+    hargs = [q.strip() for q in mh.group(2).split(",") if q.strip()]
+    if hparams != hargs:
+        raise ExtractError("verifier/bytecode/mod.rs: verify_jump no longer passes its arguments straight to check_jump")
+    mc = re.search(r"fn check_jump\(([^)]*)\) -> Result<\(\), String> \{", checks)
+    if not mc:
+        raise ExtractError("verifier/checks.rs: check_jump not found")
+    bools = [q.split(":")[0].strip() for q in mc.group(1).split(",") if "&[bool]" in q]
+    check_new = False
+    if bools:
+        b = re.escape(bools[0])
+        check_new = re.search(r"if !%s\.get\(target as usize\)\.copied\(\)\.unwrap_or\(false\) \{ return Err\(|if !%s\[target as usize\] \{ return Err\(" % (b, b), checks) is not None
+    helper_new = len(hparams) == 5
     if starts_pass and helper_new and check_new:
         jump_grid = True
-    elif helper_old and not uses_starts:
+    elif not mpass and not bools and len(hparams) == 4:
         jump_grid = False
     else:
         raise ExtractError("verifier: jump-target check shape not recognised (instruction-start table, verify_jump helper and check_jump must agree)")
+    checks = inline_bool_helpers(checks)
     shapes = {
         "check_reg": "if reg >= num_regs { return Err(",
         "check_reg_range": "if count == 0 { return Ok(()); } let last = base .checked_add(count - 1)",
@@ -261,9 +311,12 @@ def parse_verifier():
         "check_jump2": "let target = (next_ip as isize) .checked_add(offset as isize)",
         "check_jump3": "if target < 0 || target as usize > bc_len { return Err(",
     }
+    del WARNINGS[:]
     for k, frag in shapes.items():
-        if frag not in checks:
-            raise ExtractError(f"verifier/checks.rs: {k}: expected fragment {frag!r} is gone (comparison changed?)")
+        if frag not in checks and frag.replace("(", "").replace(")", "") not in checks.replace("(", "").replace(")", ""):
+            # the comparison semantics of checks.rs are tied by the verdict contract tie (boundary operands, jump to len / len+1);
+            # an unrecognised spelling is reported, not fatal
+            WARNINGS.append(f"verifier/checks.rs: {k}: spelling {frag!r} not found (covered by the verdict tie only)")
     consts = " ".join(strip_comments(rd(base + "constants.rs")).split())
     for frag in ["if let Some(func_idx) = value.as_nested_fn_marker() { if func_idx >= func.nested_functions.len() { return Err(",
                  "if let Some(ptr) = value.as_ptr() && heap.get(GcRef::new(ptr)).is_none() { return Err("]:
@@ -325,7 +378,11 @@ def gen_verifier_table():
 # ------------------------------------------------------------------------------------ dispatch sites
 def inc_arm(text, opcode, where):
     """text of the `NN => { ... }` arm of a `match opcode_byte` in an .inc file."""
-    m = re.search(r"\n    %d => \{" % opcode, text)
+    m = None
+    for mm in re.finditer(r"\n    ([0-9]+(?: \| [0-9]+)*) => \{", text):
+        if str(opcode) in mm.group(1).split(" | "):
+            m = mm
+            break
     if not m:
         raise ExtractError(f"{where}: arm for opcode {opcode} not found")
     i = m.end() - 1
@@ -350,12 +407,12 @@ def parse_dispatch():
     if not m:
         raise ExtractError("run.rs: `loop { ... let instr = unsafe { *bytecode_ptr.add(ip) }; ip += 1;` not found")
     fetch_guarded = m.group(1).startswith("if ip >= bytecode_len { self.frames.pop();") and "continue; }" in m.group(1)
-    # 2. register macros: every raw register access sits behind check_reg!
-    reg_guarded = all(frag in run for frag in [
-        "macro_rules! check_reg { ($idx:expr) => {{ let idx = $idx; if idx >= regs_len {",
-        "macro_rules! reg_get { ($idx:expr) => {{ let idx = $idx; check_reg!(idx);",
-        "macro_rules! reg_ref { ($idx:expr) => {{ let idx = $idx; check_reg!(idx);",
-        "macro_rules! reg_set { ($idx:expr, $val:expr) => {{ let idx = $idx; check_reg!(idx);"])
+    # 2. register macros: every raw register access of run.rs sits in a reg_* macro right behind check_reg!(idx)
+    macro_bodies = re.findall(r"macro_rules! (reg_\w+) \{ \(\$idx:expr(?:, \$val:expr)?\) => \{\{ let idx = \$idx; check_reg!\(idx\); (.*?)\}\}; \}", run)
+    in_macros = sum(b.count("regs_ptr.add(") for _, b in macro_bodies)
+    reg_guarded = ("macro_rules! check_reg { ($idx:expr) => {{ let idx = $idx; if idx >= regs_len {" in run
+                   and len(macro_bodies) >= 2 and in_macros == run.count("regs_ptr.add(") and in_macros == len(macro_bodies)
+                   and all(re.search(r"regs_ptr\.add\(idx\)", b) for _, b in macro_bodies))
     if "let regs_len = self.registers.len();" not in run:
         raise ExtractError("run.rs: regs_len is no longer self.registers.len()")
     raw_reg_uses = 0
@@ -370,8 +427,6 @@ def parse_dispatch():
             t = strip_comments(rd(d + "ops/" + fn))
             files[fn] = t
             raw_reg_uses += len(re.findall(r"regs_ptr\s*\.\s*(add|offset|sub)|registers\s*\.\s*get_unchecked", t))
-    if run.count("regs_ptr.add(") != 3:
-        raise ExtractError("run.rs: expected exactly the three macro uses of regs_ptr.add")
     calls = files.get("calls.inc", "")
     sites = {}
 
@@ -387,9 +442,9 @@ def parse_dispatch():
             raise ExtractError(f"dispatch: opcode {op}: cache word reads not recognised")
         offs = [1 if r.group(1) else 0 for r in reads]
         pre = b[:reads[0].start()]
-        guarded = re.search(r"if ip \+ 1 >= bytecode_len \{ [^{}]*return Err\(", pre) is not None
+        guarded = re.search(r"if (?:ip \+ 1 >= bytecode_len|ip \+ 2 > bytecode_len|bytecode_len <= ip \+ 1|bytecode_len < ip \+ 2) \{ [^{}]*return Err\(", pre) is not None
         if "bytecode_len" in pre and not guarded:
-            raise ExtractError(f"dispatch: opcode {op}: a bytecode_len test precedes the cache-word reads but is not `if ip + 1 >= bytecode_len {{ .. return Err(`")
+            raise ExtractError(f"dispatch: opcode {op}: a bytecode_len test precedes the cache-word reads but is not `if ip + 1 >= bytecode_len {{ .. return Err(` (or an equivalent spelling)")
         writes = sorted(set(re.findall(r"\*mut_ptr\.add\((ip(?: [+-] [0-9]+)?)\) =", b)))
         oldrd = sorted(set(re.findall(r"= \*mut_ptr\.add\((ip(?: [+-] [0-9]+)?)\);", b)))
         adv = re.findall(r"ip \+= 2;", b)
@@ -400,19 +455,28 @@ def parse_dispatch():
                          patch_guard_ip3=("if ip < 3 {" in b))
     # 4. constant sites
     cs = {}
-    for op, fn, var, idxdefs in [(2, "load_store.inc", "k", {"let k = imm as u16 as usize;": "imm"}),
-                                 (24, "globals.inc", "name_index", {"let name_index = imm as u16 as usize;": "imm", "let (a, k, _) = decode_abc(instr); let name_index = k as usize;": "b"}),
-                                 (25, "globals.inc", "name_index", {"let name_index = imm as u16 as usize;": "imm", "let (a, k, _) = decode_abc(instr); let name_index = k as usize;": "b"}),
-                                 (35, "closures.inc", "const_idx as usize", {"let (dest, const_idx, num_upvalues) = decode_abc(instr);": "b"})]:
+    for op, fn in [(2, "load_store.inc"), (24, "globals.inc"), (25, "globals.inc"), (35, "closures.inc")]:
         b = norm(inc_arm(files.get(fn, ""), op, fn))
-        acc = f"unsafe {{ *constants_ptr.add({var}) }}"
-        kinds = [k for d, k in idxdefs.items() if d in b]
-        if b.count(acc) != 1 or len(kinds) != 1:
-            raise ExtractError(f"{fn}: opcode {op}: constant access shape changed")
-        pre = b[:b.find(acc)]
-        gv = var if op != 35 else "(const_idx as usize)"
-        guarded = (f"if {gv} >= constants_len {{" in pre) and "return Err(" in pre[pre.find(f"if {gv} >= constants_len"):]
-        cs[op] = (kinds[0], guarded)
+        accs = re.findall(r"unsafe \{ \*constants_ptr\.add\(([^)]*)\) \}", b)
+        if len(accs) != 1:
+            raise ExtractError(f"{fn}: opcode {op}: expected one raw constant access, found {len(accs)}")
+        expr = accs[0]
+        var = re.sub(r" as usize$", "", expr)
+        if not re.fullmatch(r"\w+", var):
+            raise ExtractError(f"{fn}: opcode {op}: constant index expression {expr!r} not recognised")
+        kind = None
+        if re.search(r"let %s = imm as u16 as usize;" % var, b) and re.search(r"let \(\w+, imm\) = decode_aimm\(instr\);", b):
+            kind = "imm"
+        else:
+            m5 = re.search(r"let \((\w+), (\w+), (\w+)\) = decode_abc\(instr\);", b)
+            if m5 and (var == m5.group(2) or re.search(r"let %s = %s as usize;" % (var, m5.group(2)), b)):
+                kind = "b"
+        if kind is None:
+            raise ExtractError(f"{fn}: opcode {op}: cannot tell which operand indexes the constant table")
+        pre = b[:b.find("*constants_ptr.add(")]
+        g = re.search(r"if \(?%s\)? >= constants_len \{" % re.escape(expr if expr != var else var), pre) or re.search(r"if \(?%s(?: as usize)?\)? >= constants_len \{" % var, pre)
+        guarded = bool(g) and "return Err(" in pre[g.start():]
+        cs[op] = (kind, guarded)
     all_const = sum(t.count("constants_ptr.add(") for t in files.values())
     if all_const != 4:
         raise ExtractError(f"dispatch: expected 4 raw constant accesses, found {all_const}")
@@ -457,12 +521,15 @@ def parse_dispatch():
             (78, "call_global_mono.inc", b78), (79, "call_cached.inc", norm(files.get("call_cached.inc", ""))),
             (80, "call_upval.inc", norm(files.get("call_upval.inc", ""))), (81, "tail_call_upval.inc", norm(files.get("tail_call_upval.inc", "")))]
     for op, fn, b in srcs:
-        for m in re.finditer(r"(?<![.\w])constants_ptr = ([a-z_.]+);( constants_len = [a-z_.]+;)?", b):
-            closure = b[m.end():m.end() + 80]
-            kind = 0 if "upvalues_ptr = std::ptr::null();" in closure else 1     # 0 = plain function, 1 = closure
-            refreshed = m.group(2) is not None
+        # a frame switch is a run of assignments to the loop locals ending with `global_mapping_id = ..;`
+        for m in re.finditer(r"((?:(?<![.\w])\w+ = [^;{}]+; ?(?://[^\n]*)?)+)", b):
+            run = m.group(1)
+            if not re.search(r"(?<![.\w])constants_ptr = ", run) or "bytecode_ptr = " not in run:
+                continue
+            kind = 0 if "upvalues_ptr = std::ptr::null();" in run else 1     # 0 = plain function, 1 = closure
+            refreshed = re.search(r"(?<![.\w])constants_len = ", run) is not None
             if op == 81:    # the tail call rewrites the current frame in place: its own constants_len must follow too
-                refreshed = refreshed and b.count("frame.constants_ptr = const_ptr; frame.constants_len = const_len;") == b.count("frame.constants_ptr = const_ptr;") > 0
+                refreshed = refreshed and b.count("frame.constants_len = ") == b.count("frame.constants_ptr = ") > 0
             upd.append((op, kind, refreshed))
     ret = norm(inc_arm(calls, 22, "calls.inc")) + norm(inc_arm(calls, 23, "calls.inc"))
     ret_ok = ret.count("constants_ptr = caller_const_ptr; constants_len = caller_const_len;") == 2
@@ -560,14 +627,16 @@ def parse_census():
         else:
             t = text
             arms = []
-            for m in re.finditer(r"\n    ([0-9]+) => \{", t):
-                op = int(m.group(1))
-                body = inc_arm(t, op, fn)
+            for m in re.finditer(r"\n    ([0-9]+(?: \| [0-9]+)*) => \{", t):
+                opsl = [int(x) for x in m.group(1).split(" | ")]
+                body = inc_arm(t, opsl[0], fn)
                 if "include!(" in body:
                     continue        # the arm's code lives in its own file (call_global.inc, ...), handled there
-                arms.append((op, body))
+                for k, op in enumerate(opsl):
+                    arms.append((op, body if k == 0 else body + " "))
+            first_of = {}
             whole = census_of(re.sub(r'include!\("[a-z_]+\.inc"\);', "", text), fn)
-            if sum(len(census_of(b, f"{fn}[{o}]")) for o, b in arms) != len(whole):
+            if sum(len(census_of(b, f"{fn}[{o}]")) for o, b in arms if not b.endswith(" ")) != len(whole):
                 raise ExtractError(f"{fn}: raw accesses outside the opcode arms")
         for op, body in arms:
             if op in arms_seen:
@@ -576,6 +645,8 @@ def parse_census():
             for name, idx in census_of(body, f"{fn}[{op}]"):
                 census.setdefault((op, SITE_ID[name]), set()).add(idx)
             b = " ".join(strip_comments(body).split())
+            for mt in re.finditer(r"let (\w+) = \(ip as isize \+ imm as isize\) as usize;", b):     # jump through a named target
+                b = re.sub(r"\bip = %s;" % mt.group(1), "ip = (ip as isize + imm as isize) as usize;", b)
             if re.search(r"ip = \(ip as isize \+ imm as isize\) as usize;", b):
                 jumps.add(op)
             if re.search(r"\bip = [^;]*;", re.sub(r"\bip = (\(ip as isize \+ imm as isize\) as usize|0|caller_ip);", "", re.sub(r"\.ip = [^;]*;", "", b))):
@@ -587,8 +658,9 @@ def parse_census():
             if re.search(r"\bip (\+|-)= ", re.sub(r"\bip \+= 2;|\bip -= 1; continue;", "", b)):
                 raise ExtractError(f"{fn}[{op}]: ip is advanced in a way the control-flow model does not know")
     run = strip_comments(rd(d + "run.rs"))
-    if len(raw_accesses(run)) != 4:
-        raise ExtractError(f"run.rs: expected 4 raw accesses (fetch + 3 register macros), found {len(raw_accesses(run))}")
+    nmacros = len(re.findall(r"macro_rules! reg_\w+", run))
+    if len(raw_accesses(run)) != 1 + nmacros or nmacros < 2:
+        raise ExtractError(f"run.rs: expected the fetch plus one raw access per register macro ({nmacros}), found {len(raw_accesses(run))}")
     m = RAW_OTHER.search(run)
     if m:
         raise ExtractError(f"run.rs: raw operation `{m.group(1)}` has no footprint site")
